@@ -1032,7 +1032,10 @@ impl fmt::Display for Type1<'_> {
       }
 
       t1_str.push_str(&o.type2.to_string());
-    } else if let Some(comments) = &self.comments_after_type {
+    }
+
+    #[cfg(feature = "ast-comments")]
+    if let Some(comments) = &self.comments_after_type {
       if comments.any_non_newline() {
         let _ = write!(t1_str, " {}", comments);
       }
